@@ -92,6 +92,27 @@ def strarray_jobs(model, tier, config='le'):
                         owners={'post': ['C10'], 'safety': ['C10'], 'assigns': ['C10', 'C16'], 'loop': ['C10'], 'unwind': ['C10']},
                         clause_map=cm, function=fn, kind='vss-strarray', config=config, timeout=1800, obj_bits=10, solver='kissat',
                         unwind={fn: NB + 2}, bounded=bound_txt))
+    # more than 255 strings (the property names this case): the counter on an array of vp_n <= 300 EMPTY strings (2 zero bytes
+    # each), loop unwound 302 times - a counter narrower than the count it returns is refuted here
+    src = ('#include <stdlib.h>\n#include "vp_env.h"\n#include "avtp/acf/custom/Vss.h"\nunsigned vp_n;\n'
+           'uint16_t vp_cnt_empty(VssDataStringArray_t* arr)\n'
+           '__CPROVER_requires(vp_n <= 300u && __CPROVER_r_ok(arr, sizeof(*arr)) && arr->data_length == 2u * vp_n && __CPROVER_r_ok(arr->data, 2u * vp_n))\n'
+           '__CPROVER_assigns()\n'
+           '__CPROVER_ensures(__CPROVER_return_value == vp_n) /*TAG C10:count-equals-number-of-packed-strings(more-than-255-empty-strings)*/\n;\n'
+           'void harness(void)\n{\n    vp_n = nondet_uint(); __CPROVER_assume(vp_n <= 300u);\n'
+           '    VssDataStringArray_t a; a.data_length = (uint16_t)(2u * vp_n); a.data = calloc(2u * vp_n + 1u, 1); __CPROVER_assume(a.data != NULL);\n'
+           '    Avtp_Vss_GetVSSDataStringArrayLength(&a);\n    VP_CANARY();\n}\n')
+    cm = {}
+    for i, l in enumerate(src.split('\n'), 1):
+        m = re.search(r'/\*TAG\s+(\S+?)\s*\*/', l)
+        if m:
+            cm[i] = m.group(1)
+    jobs.append(Job('Avtp_Vss_GetVSSDataStringArrayLength/bounded-300-empty-strings', src, [VSS_SRC, 'src/avtp/Utils.c'],
+                    enforce='Avtp_Vss_GetVSSDataStringArrayLength/vp_cnt_empty',
+                    owners={'post': ['C10'], 'safety': ['C10'], 'assigns': ['C10', 'C16'], 'loop': ['C10'], 'unwind': ['C10']},
+                    clause_map=cm, function='Avtp_Vss_GetVSSDataStringArrayLength', kind='vss-strarray', config=config, timeout=1200,
+                    unwind={'Avtp_Vss_GetVSSDataStringArrayLength': 302},
+                    bounded='BOUNDED: arrays of at most 300 empty strings, counter loop unwound 302 times with unwinding assertions'))
     # type-level fact: the counter's return type carries every possible count (<= 32767)
     src = ('#include "vp_env.h"\n#include "avtp/acf/custom/Vss.h"\nvoid harness(void)\n{\n    VssDataStringArray_t *a = 0;\n'
            '    __CPROVER_assert(sizeof(Avtp_Vss_GetVSSDataStringArrayLength(a)) >= 2, "C10: the counter\'s return type carries every possible string count (up to 32767)");\n'
